@@ -1,8 +1,63 @@
-/- Driver handler of C15: protocol line (already split into tokens, without the leading "c15") -> answer. -/
+/- Driver handler of C15: protocol line tokens -> answer.
+     c15 <via> <fn> <arg>…      via = f (through a formula) | l (direct library call): only changes how a raise prints
+     fn = countif rng crit | countifs (rng crit)+ | sumif rng crit [sumrng] | sumifs sumrng (rng crit)+
+        | averageif rng crit [avgrng] | averageifs avgrng (rng crit)+ | maxifs rng (rng crit)+ | minifs rng (rng crit)+
+        | sat crit cell          (criteria_parser(crit)(cell))   | wild pattern text  (build_wildcard_re)
+   A range argument may be an array `a:r:c …` or a scalar (the code wraps it as 1×1); criteria must be scalars. -/
 import Pycel.Model.Proto
+import Pycel.Model.Criteria
 namespace Pycel.Drv.C15
+open Pycel Pycel.Criteria
+
+def rangeOf : Arg → Arr
+  | .scalar v => [[v]]
+  | .arr a => a
+
+def pairsOf : List Arg → Option (List (Arr × Val))
+  | [] => some []
+  | r :: .scalar c :: rest => (pairsOf rest).map fun ps => (rangeOf r, c) :: ps
+  | _ => none
+
+def showOut (via : String) : Out Val → String
+  | .ok v => v.enc
+  | .error e => (Val.err e).enc
+  | .raise k => if via = "f" then s!"!exc:pycel:FormulaEvalError({k})" else s!"!exc:bare:{k}"
+
+def run (via fn : String) (args : List Arg) : String :=
+  match fn, args with
+  | "countif", [r, .scalar c] => showOut via (countif (rangeOf r) c)
+  | "countifs", ps =>
+    match pairsOf ps with
+    | some (p :: ps) => showOut via (countifs (p :: ps))
+    | _ => "!bad-arg"
+  | "sumif", [r, .scalar c] => showOut via (sumif (rangeOf r) c none)
+  | "sumif", [r, .scalar c, s] => showOut via (sumif (rangeOf r) c (some (rangeOf s)))
+  | "averageif", [r, .scalar c] => showOut via (averageif (rangeOf r) c none)
+  | "averageif", [r, .scalar c, s] => showOut via (averageif (rangeOf r) c (some (rangeOf s)))
+  | "sat", [.scalar c, .scalar v] =>
+    match criteriaParser c with
+    | some k => (Val.bool (sat k v)).enc
+    | none => showOut via (.raise "ValueError")
+  | "wild", [.scalar (.str p), .scalar (.str s)] =>
+    if hasWild p then (Val.bool (matchPat (parsePat (Ops.lower p)) (Ops.lower s))).enc else "z"
+  | fn, s :: ps =>
+    match pairsOf ps with
+    | some (p :: ps) =>
+      let a := rangeOf s
+      match fn with
+      | "sumifs" => showOut via (sumifs a (p :: ps))
+      | "averageifs" => showOut via (averageifs a (p :: ps))
+      | "maxifs" => showOut via (maxifs a (p :: ps))
+      | "minifs" => showOut via (minifs a (p :: ps))
+      | _ => "!bad-op"
+    | _ => "!bad-arg"
+  | _, _ => "!bad-op"
 
 def handle : List String → String
+  | "c15" :: via :: fn :: toks =>
+    match decArgs? toks with
+    | some args => run via fn args
+    | none => "!bad-arg"
   | _ => "!bad-op"
 
 end Pycel.Drv.C15
